@@ -87,6 +87,14 @@ def gen(run):
             faults = [{"at": rng.randrange(0, len(ops)), "code": rng.choice([0x01, 0x28, 0x2E, 0x7F, 0xF0])}]
         sc = scenario(store_kind=kind, content=content, ops=ops, faults=faults)
         scs.append(sc)
+    # the same key handle registered again for the same application (a token that is reset and enrolled again): the second
+    # registration succeeds too, replaces the first key, and authentication then verifies under the NEW key - on every store kind
+    for kind in CONTRACT_STORES + MEMORY_STORES:
+        for hl in (16, 32, 64):
+            app, h = rb(rng, 32), rb(rng, hl)
+            scs.append(scenario(store_kind=kind, content=[], ops=[reg(app, rb(rng, 32), h), auth(app, rb(rng, 32), h, 1, 0x01, 3),
+                                                                 reg(app, rb(rng, 32), h), auth(app, rb(rng, 32), h, 2, 0x01, 3),
+                                                                 reg(app, rb(rng, 32), h), auth(app, rb(rng, 32), h, 3, 0x05, 8)]))
     return scs
 
 
@@ -185,6 +193,9 @@ def oracle(sc, out):
                     fails.append("failed registration changed the store")
                 if not any(e["c"] == "save" and "err" in e["r"] for e in obs["log"]):
                     fails.append("registration failed although the store accepted the credential")
+                elif not sc.get("faults") and sc["store"].get("capacity") is None:
+                    fails.append("registration of key handle %s failed: the store refused to save the credential although no store call was made to fail"
+                                 % op["handle"][:16])
         else:
             app, chal, kh = bytes.fromhex(op["application"]), bytes.fromhex(op["challenge"]), bytes.fromhex(op["key_handle"])
             if canon(after) != canon(content):
